@@ -1,17 +1,21 @@
-# C07 — abort and stop always return and leave a reusable runtime (unit leaves; API-level leaf in the runtime harness)
+# C07 — abort and stop always return and leave a reusable runtime
 import importlib.util, os
 _s = importlib.util.spec_from_file_location("rc", os.path.join(VERIF, "props", "_runtime_common.py")); rc = importlib.util.module_from_spec(_s); _s.loader.exec_module(rc)
 
 def harnesses(tier, findings):
-    if tier == "quick":
-        return [rc.source_unit(H, VERIF, 1, 2, 1, envmax=6), rc.sink_unit(H, VERIF, 2, 2, 1, envmax=6)]
-    return [rc.source_unit(H, VERIF, 1, 3, 2, envmax=8, timeout=3000), rc.source_unit(H, VERIF, 1, 2, 1, envmax=8, timeout=3000, tag="b"),
-            rc.sink_unit(H, VERIF, 2, 3, 2, envmax=8, timeout=3000)]
+    excl = True
+    hs = [rc.source_unit(H, VERIF, 1, 2, 1, envmax=6), rc.sink_unit(H, VERIF, 2, 2, 1, polls=2, envmax=5, delay0=True, tag="d0"),
+          rc.start_flags(H, VERIF, 1), rc.start_flags(H, VERIF, 2), rc.start_flags(H, VERIF, 3),
+          rc.inst(H, VERIF, 2, 2, 1, 1, 1, excl=excl), rc.inst(H, VERIF, 2, 2, 0, 1, 0, excl=excl), rc.inst(H, VERIF, 2, 2, 1, 1, 2, excl=excl)]
+    if tier == "thorough":
+        hs += [rc.source_unit(H, VERIF, 1, 3, 2, envmax=8, timeout=3000, tag="b"), rc.inst(H, VERIF, 3, 2, 1, 1, 1, excl=excl, timeout=3000),
+               rc.inst(H, VERIF, 2, 2, 0, 1, 1, excl=excl), rc.inst(H, VERIF, 2, 2, 1, 1, 3, excl=excl)]
+    return hs
 
 META = dict(
     level="model_checking",
-    bounds=dict(quick="source unit under abort (is_stopping, then refusal, at arbitrary boundaries), N<=2, ring 1 frame; sink unit with a writer that is refused mid-run, N<=2",
-                thorough="N<=3, ring 2 frames"),
-    outside="the channel itself is replaced by its contract model in these units (its blocking/wake-up behaviour under abort is C03); camera blocked waiting for a trigger (C18); API-level sequencing of abort/stop is in the whole-runtime harness (coarse schedules)",
-    assumptions=["env/chan_contract.c = guarantees established by C01-C03", "mock camera/storage", "boundary scheduling (B): environment steps before every atomic channel operation, at clock/sleep stubs and at device-mock entry"],
+    bounds=dict(quick="source unit under abort (stop flag, then refusal, at arbitrary boundaries; N<=2, ring 1 frame); sink unit with refused writer (N<=2); start functions from arbitrary flags; whole runtime: 2 acquisitions x 2 frames ended by abort (source before/after the client, client idle / consuming / holding), order of abort's effects checked at the trigger",
+                thorough="N<=3, 3 acquisitions, more client modes"),
+    outside="the channel's own blocking behaviour under abort (C03); a camera blocked waiting for a trigger is represented by the ordering obligation on acquire_abort (stop flag and refusal before the trigger) plus C18; fine-grained worker schedules at API level",
+    assumptions=["env/chan_contract.c = guarantees established by C01-C03", "mock camera/storage", "boundary scheduling (B) in the units; coarse schedules in the whole-runtime runs"],
 )
